@@ -4,16 +4,26 @@
    [Crash] (int(inf), len() of a non-sized value, a missing dict key, an out-of-range list index, attribute access
    on the wrong type, wrong arity), and running out of recursion fuel is [OutOfFuel]; termination of the model
    itself is Coq's.  Proved below: evaluation of every well-typed query on every well-formed value within the
-   depth limit returns a nodelist (no error of any kind).  NOT proved (decided by the correspondence on
-   garbage / near-miss / deeply nested inputs, with every exception classified):
-     C13_compile_total : forall cfg s, (exists q, m_compile cfg s = Ok q) \/ (exists c o, m_compile cfg s = Err c o)
-     C13_find_total    : forall cfg q v, compiled q -> (exists ns, m_find cfg q v = Ok ns) \/ m_find cfg q v = Err ERecursion None *)
+   depth limit returns a nodelist (no error of any kind), and compile() of ANY text of scalar values never ends in an
+   exception that is not a JSONPathError (C13_compile_no_other_exception).  NOT proved (decided by the correspondence
+   on garbage / near-miss / deeply nested inputs, with every exception classified): that the fuel the model gives the
+   lexer and parser loops always suffices (= termination of the Python loops), and
+     C13_find_total : forall cfg q v, compiled q -> (exists ns, m_find cfg q v = Ok ns) \/ m_find cfg q v = Err ERecursion None *)
 From JP Require Import Base.Json Model.Ast Model.Eval Spec.Sem Spec.Types Proofs.FilterProofs.
 
 Theorem C13_eval_total_partial : forall cfg, reg_ok (reg cfg) = true -> (1 <= max_depth cfg)%nat ->
   forall q v, wt_query (reg cfg) q = true -> good cfg v -> exists ns, m_find cfg q v = Ok ns.
 Proof. intros cfg Hr HN q v Hwt Hg. eexists. apply find_well_typed; assumption. Qed.
 Print Assumptions C13_eval_total_partial.
+
+(* compile(): whatever the text, no IndexError from the lexer's filter stack or the string decoder, no KeyError from the
+   parser's dispatch tables, ... escapes.  Proofs/LexNoCrash.v (state-machine invariant: filter_depth = len(stack),
+   non-empty inside filters; every string token body has the shape C09_decode needs), Proofs/ParseNoCrash.v (KeyErrors
+   are raised only below parse_filter_expression, which catches them), Proofs/CompileNoCrash.v. *)
+From JP Require Import Model.Api Proofs.StringProofs Proofs.CompileNoCrash.
+Theorem C13_compile_no_other_exception : forall cfg text, forallb is_scalar text = true -> forall x, m_compile cfg text <> Crash x.
+Proof. exact compile_no_crash. Qed.
+Print Assumptions C13_compile_no_other_exception.
 
 (* the error string: position() is defined for every offset, including the synthetic index -1 *)
 From JP Require Import Model.Position.
@@ -23,8 +33,6 @@ Print Assumptions C13_error_str_total.
 
 (* the lexer's regular expressions and ESCAPES in the model are the ones REGENERATED from lex.py on this run *)
 From JP Require Import Proofs.TieLex Gen.LexConst Model.Lex.
-Theorem C13_lexer_tables_regenerated :
-  g_RE_WHITESPACE = RE_WHITESPACE /\ g_RE_PROPERTY = RE_PROPERTY /\ g_RE_INDEX = RE_INDEX /\ g_RE_INT = RE_INT /\
-  g_RE_FLOAT = RE_FLOAT /\ g_RE_FUNCTION_NAME = RE_FUNCTION_NAME /\ g_ESCAPES = ESCAPES.
-Proof. exact lex_regexes_regenerated. Qed.
+Theorem C13_lexer_tables_regenerated : lex_tables_agree.      (* same matcher results on every text; same escape set *)
+Proof. exact lex_tables_regenerated. Qed.
 Print Assumptions C13_lexer_tables_regenerated.
